@@ -20,7 +20,9 @@ LawWideLongWide == c.v = "reshape-w2l" => ReshapeWideLongWide(c, s)
 LawLongWideLong == c.v = "reshape-l2w" => \A F \in KeyLists : ReshapeLongWideLong(c, s, F)
 LawBystanders == BystandersKept(c, s) /\ BystandersKeptMulti(c, s)
 LawExpectedAllowed == Deterministic(c, s) => Allowed(c, s, Expected(c, s))
-Laws == /\ LawCut /\ LawRename /\ LawUnsparsify /\ LawNestFields /\ LawNestRecords /\ LawWideLongWide /\ LawLongWideLong
+LawChains == ChainIdentity(c, s)
+LawWellFormed == \A i \in 1..Len(s) : NoDup(KeysOf(s[i]))       \* (of the case space: records have distinct keys)
+Laws == /\ LawWellFormed /\ LawChains /\ LawCut /\ LawRename /\ LawUnsparsify /\ LawNestFields /\ LawNestRecords /\ LawWideLongWide /\ LawLongWideLong
         /\ LawBystanders /\ LawExpectedAllowed
 
 \* how much of the space each law's premise covers (for the notes; run by hand with -continue and count)
